@@ -174,7 +174,11 @@ def specNote (v : VSt) (goid : Nat) (point : String) (wid : Nat) (n : Nat) : VSt
   | "h.serve.hung" => (v, "?viol:serve-did-not-return")
   | "h.panic" => (v, "?viol:api-call-panicked")
   | "h.connclosed" => if n = 1 then (v, "?ok") else (v, s!"?viol:connection-closed-{n}-times")
-  | "sv.starting" => ({ v with sStopped := false, sShutdownBegun := false, sQueue := [], sRunning := [] }, "?ok")
+  | "sv.starting" =>
+    -- a new cycle; callbacks of the previous cycle that are still running stay on record (a service
+    -- that lets itself be served again before they ended breaks C03, and C01 if one of their groups runs again)
+    ({ v with sStopped := false, sShutdownBegun := false, sQueue := [] },
+      if v.sRunning.isEmpty then "?ok" else "?viol:serve-accepted-while-callbacks-of-the-previous-cycle-run-shutdown-not-complete")
   | "h.quiescent" =>
     -- the harness has waited for everything it submitted: nothing may be left behind
     if v.sShutdownBegun then (v, "?ok")
